@@ -259,6 +259,11 @@ func calculateModRM(mem *ng_operand.MemoryInfo, bitMode cpu.BitMode, regBits byt
 		mod = 0b10000000
 	}
 
+	// [BX+EAX] のように幅の違うレジスタを混ぜたアドレスは存在しません (以前は [EBX+EAX] として出力されていました)
+	if mem.BaseReg != "" && mem.IndexReg != "" && is32BitRegister(mem.BaseReg) != is32BitRegister(mem.IndexReg) {
+		return 0, 0, false, nil, fmt.Errorf("16-bit and 32-bit registers mixed in one address: Base=%s, Index=%s", mem.BaseReg, mem.IndexReg)
+	}
+
 	// アドレス幅は使われているレジスタで決まる (レジスタが無ければモードの既定)。
 	// 67h プレフィックスは呼び出し側が ng_operand.Require67h() に基づいて付ける。
 	use16 := bitMode == cpu.MODE_16BIT
